@@ -164,6 +164,8 @@ def generate(seed, tier):
         fmt = g.choice(fmts)
         quadfmt = fmt in writers.QUAD_FORMATS and quadsink and g.random() < 0.8
         lab = list(labels)
+        if g.random() < 0.25:
+            lab += ["n_1", "nb1"]  # two labels of one document that differ in one character only ('_' / 'b')
         if g.random() < 0.3:
             lab.append("@gen")  # resolved at execution: an id rdflib generated earlier in this run
         if prev is not None and g.random() < 0.3:
